@@ -11,7 +11,7 @@ import (
 func init() {
 	register(&Check{
 		ID: "C05", Level: "exploration", QuickSecs: 150, ThoroughSecs: 1500,
-		Rule:        "skeletons over {'a','b',#{},&{}} x {?,*,+,&,!} x seq/choice (arity<=3) up to N nodes (quick 5, thorough 6) under a rule-level action, plus one label+action decoration per node for N<=3 and a rule call variant; every #{} appends its id to a string value (shallow copy), to a Cloner list mutated IN PLACE and to globalStore; action and predicate blocks attempt the same mutations; every block snapshots state and globalStore. Inputs over {a,b} up to L=3, InitState on/off, 2 generation flag sets. Every snapshot and the final store are compared with the reference (immutable store threaded through the evaluation; failing expression = store unchanged; &/! always restore; block-local changes dropped; globalStore append-only). The pool shim additionally checks the pool discipline (no double Put, no non-empty map from Get). Non-trivial = a state change was followed by a failure of an enclosing expression (reference backtracked after a #{} ran).",
+		Rule:        "skeletons over {'a','b',#{},&{}} x {?,*,+,&,!} x seq/choice (arity<=3) up to N nodes (quick 5, thorough 6) under a rule-level action, plus one label+action decoration per node for N<=3 and a rule call variant; every #{} appends its id to a string value (shallow copy), to a Cloner list mutated IN PLACE and to globalStore; action and predicate blocks attempt the same mutations (two scripts: all blocks return normally / all blocks also return an error); every block snapshots state and globalStore. Inputs over {a,b} up to L=3, InitState on/off, 2 generation flag sets. Every snapshot and the final store are compared with the reference (immutable store threaded through the evaluation; failing expression = store unchanged; &/! always restore; block-local changes dropped; globalStore append-only). The pool shim additionally checks the pool discipline (no double Put, no non-empty map from Get). Non-trivial = a state change was followed by a failure of an enclosing expression (reference backtracked after a #{} ran).",
 		Assumptions: []string{"E1 loader", "position/text seen by non-action blocks are C02's concern and are masked here"},
 		Run:         runC05,
 	})
@@ -34,10 +34,15 @@ func runC05(c *ShardCtx) {
 	inputs := peg.Inputs([]string{"a", "b"}, 3)
 	opts := []rtapi.RunOpts{{MaxExpr: 200, InitState: true}, {MaxExpr: 200}}
 	allOps := rtapi.OpShallow | rtapi.OpCloner | rtapi.OpGlobal
-	mkScript := func(g *peg.Grammar) map[int]*rtapi.Block {
+	// two scripts: every block mutates all three stores and returns normally; the same
+	// with every block also returning an error (the error path must restore alike)
+	mkScript := func(g *peg.Grammar, withErr bool) map[int]*rtapi.Block {
 		s := map[int]*rtapi.Block{}
 		for _, b := range g.Blocks() {
 			s[b.ID] = &rtapi.Block{Ops: allOps, Pred: rtapi.PredTrue}
+			if withErr {
+				s[b.ID].Err = "e" + itoa(b.ID)
+			}
 		}
 		return s
 	}
@@ -53,7 +58,7 @@ func runC05(c *ShardCtx) {
 	run := func(g *peg.Grammar) {
 		peg.Renumber(g, 1)
 		peg.AssignArgs(g)
-		fam := &family{gens: gens2, inputs: inputs, opts: opts, scripts: []map[int]*rtapi.Block{mkScript(g)}, nontrivial: nontriv,
+		fam := &family{gens: gens2, inputs: inputs, opts: opts, scripts: []map[int]*rtapi.Block{mkScript(g, false), mkScript(g, true)}, nontrivial: nontriv,
 			cmp: core.CmpOpts{EventKey: stateKey, SkipNoMatch: true}, confEvery: 97, confQuota: 1}
 		runGrammar(c, g, fam)
 	}
